@@ -74,19 +74,7 @@ SndDecay(v) == [v EXCEPT !.pitch = IF @ = <<"PITCH_NORM", "PITCH_NORM">> THEN <<
                          !.force = @ \/ \E k \in 1..3 : v.stacks[k] # <<>>]
 
 (* ======================= particle systems ================================ *)
-\* As implemented, the reader also lists the DMX element's own name among the
-\* options of every system and operator.  The law is checked against the
-\* value with that addition (so that any other difference still shows), and
-\* the addition itself is reported under its own clause.
-NameOpt(nm) == <<"name", "STRING", "", nm>>
-HasName(opts) == \E k \in 1..Len(opts) : opts[k][1] = "name"
-LeakOpts(nm, opts) == IF HasName(opts) THEN opts ELSE <<NameOpt(nm)>> \o opts
-LeakOp(o) == [o EXCEPT !.options = LeakOpts(o.name, @)]
-PcfLeak(v) ==
-    [systems |-> MapSeq(LAMBDA s : [s EXCEPT !.options = LeakOpts(s.name, @),
-                                             !.renderers = MapSeq(LeakOp, @), !.operators = MapSeq(LeakOp, @),
-                                             !.initializers = MapSeq(LeakOp, @), !.emitters = MapSeq(LeakOp, @),
-                                             !.forces = MapSeq(LeakOp, @), !.constraints = MapSeq(LeakOp, @)], v.systems)]
+\* (no decay: options, operators and children read back as written)
 
 (* ======================= the law ========================================= *)
 Decay(fmt, v) ==
